@@ -19,6 +19,7 @@ import (
 	"errors"
 	"fmt"
 	"io"
+	"mime/multipart"
 	"net/http"
 	"net/http/httptest"
 	"net/url"
@@ -498,7 +499,36 @@ func genBodyCase(r *hx.Rand) caseT {
 
 var contentTypes = []string{"application/json", "application/json", "application/json", "application/json; charset=utf-8", "APPLICATION/JSON",
 	" application/json ;x=y", "", "application/merge-patch+json", "application/json-patch+json", "text/plain", "application/xml",
-	"application/jsonx", "application/x-www-form-urlencoded", "application/x-www-form-urlencoded", "Application/X-WWW-Form-Urlencoded; charset=UTF-8"}
+	"application/jsonx", "application/x-www-form-urlencoded", "application/x-www-form-urlencoded", "Application/X-WWW-Form-Urlencoded; charset=UTF-8",
+	"multipart/form-data", "multipart/form-data", "Multipart/Form-Data"}
+
+const mpBoundary = "c04boundary"
+
+// multipartOK: the form-tagged fields of the type are leaves of the top level and no maps (a MultipartGetter is a form
+// getter for those; map notation and nested structs go other ways)
+func multipartOK(ct *corpusType) bool {
+	sh := ct.Shapes[2]
+	if len(sh.Structs) > 0 {
+		return false
+	}
+	for _, lf := range sh.Leaves {
+		if lf.Nested || lf.Kind == "map" || lf.Kind == "ptrmap" {
+			return false
+		}
+	}
+	return true
+}
+
+func multipartBody(kv [][2]string) []byte {
+	var b bytes.Buffer
+	w := multipart.NewWriter(&b)
+	_ = w.SetBoundary(mpBoundary)
+	for _, p := range kv {
+		_ = w.WriteField(p[0], p[1])
+	}
+	_ = w.Close()
+	return b.Bytes()
+}
 
 func genHTTPCase(r *hx.Rand, ct *corpusType) caseT {
 	c := caseT{T: ct.E.Name, Entry: "H", Opts: optsT{MaxDepth: -1, MaxSlice: -1, MaxMap: -1}, NT: true}
@@ -526,8 +556,25 @@ func genHTTPCase(r *hx.Rand, ct *corpusType) caseT {
 		}
 		c.Srcs = append(c.Srcs, srcCase{Tag: tag, KV: kv})
 	}
+	if strings.Contains(strings.ToLower(h.CT), "multipart") && !multipartOK(ct) {
+		h.CT = "application/x-www-form-urlencoded"
+	}
 	if strings.Contains(strings.ToLower(h.CT), "form") {
 		h.Form = genSrc(r, ct.Shapes[2], 2, c.Opts, &c.NT, r.Range(2, 7))
+		if len(h.Form) > 0 && r.Chance(1, 2) {
+			// the URL carries parameters named like fields of the form, with other values
+			for i := r.Range(1, 2); i > 0; i-- {
+				p := hx.Pick(r, h.Form)
+				c.Srcs[1].KV = append(c.Srcs[1].KV, [2]string{p[0], hx.Pick(r, []string{"from-the-url", "7", "", "true", p[1] + "0"})})
+			}
+		}
+		if strings.Contains(strings.ToLower(h.CT), "multipart") {
+			h.CT += "; boundary=" + mpBoundary
+			h.Docs = [][]byte{multipartBody(h.Form)}
+			h.Ops = []opT{{K: "b", Strict: r.Chance(1, 4)}}
+			c.HTTP = h
+			return c
+		}
 		q := url.Values{}
 		for _, p := range h.Form {
 			q.Add(p[0], p[1])
@@ -887,7 +934,7 @@ func emitHTTP(id string, c caseT, ct *corpusType, mk func() any, init string, st
 		path += "/" + url.PathEscape(p[1])
 	}
 	var srcs []*srcT
-	var form *srcT
+	var form, mform *srcT
 	var res any
 	var err error
 	var panicked, ran bool
@@ -961,6 +1008,12 @@ func emitHTTP(id string, c caseT, ct *corpusType, mk func() any, init string, st
 	if !ran {
 		return "# " + id + " discarded: the request did not reach the handler"
 	}
+	if strings.HasPrefix(h.CT, "multipart/form-data") {
+		// the fields of the multipart body, read with mime/multipart directly
+		if f, ferr := multipart.NewReader(bytes.NewReader(h.Docs[0]), mpBoundary).ReadForm(32 << 20); ferr == nil {
+			mform = &srcT{kvs: sortedKVs(f.Value)}
+		}
+	}
 	rt := reflect.TypeOf(ct.E.New()).Elem()
 	l := hx.NewLine(id).Tok("H")
 	ct.Node.tokens(l)
@@ -972,6 +1025,10 @@ func emitHTTP(id string, c caseT, ct *corpusType, mk func() any, init string, st
 		writeKVs(l, srcs[i])
 	}
 	writeKVs(l, form)
+	l.Bool(mform != nil)
+	if mform != nil {
+		writeKVs(l, mform)
+	}
 	l.Nat(len(h.Docs))
 	for _, d := range h.Docs {
 		refDecode(l, "j", d, mk)
@@ -987,7 +1044,11 @@ func emitHTTP(id string, c caseT, ct *corpusType, mk func() any, init string, st
 			l.Tok("r")
 		}
 	}
-	writeTable(l, ct, append(append([]*srcT(nil), srcs...), form), nil)
+	tsrcs := append(append([]*srcT(nil), srcs...), form)
+	if mform != nil {
+		tsrcs = append(tsrcs, mform)
+	}
+	writeTable(l, ct, tsrcs, nil)
 	in := l.String()
 	writeOutcome(l, st, res, err, panicked, false)
 	if st != nil {
@@ -1058,6 +1119,24 @@ func fixedBodyCases() []caseT {
 		out = append(out, caseT{T: ct.E.Name, Entry: "H", Opts: o, NT: true, Via: "bind", Srcs: empty,
 			HTTP: &httpCase{CT: "application/json", Docs: [][]byte{d1, d2}, Ops: []opT{{K: "b"}, {K: "s", Doc: 1}, {K: "b"}}}})
 		break
+	}
+	// a multipart body whose field is also named by a URL parameter: the form field is bound from the body
+	nmp := 0
+	for _, ct := range bodyTypes {
+		if nmp >= 2 || !multipartOK(ct) {
+			continue
+		}
+		for _, lf := range ct.Shapes[2].Leaves {
+			if lf.Kind == "prim" && lf.Prim == "s" {
+				nmp++
+				o := optsT{-1, -1, -1, false, false, nil}
+				kv := [][2]string{{lf.Keys[0], "from-the-form"}}
+				out = append(out, caseT{T: ct.E.Name, Entry: "H", Opts: o, NT: true, Via: "only",
+					Srcs: []srcCase{{Tag: 1}, {Tag: 0, KV: [][2]string{{lf.Keys[0], "from-the-url"}}}, {Tag: 3}, {Tag: 4}},
+					HTTP: &httpCase{CT: "multipart/form-data; boundary=" + mpBoundary, Form: kv, Docs: [][]byte{multipartBody(kv)}, Ops: []opT{{K: "b"}}}})
+				break
+			}
+		}
 	}
 	return out
 }
